@@ -15,14 +15,14 @@ def c15First : List (Option String) → Option String
   | none :: r => c15First r
 
 /-- row `r` of the batch is row `i` of all the tables -/
-def rowIs (pin val : List (List Rat)) (eq : List (List (List Rat)))
+def c15RowIs (pin val : List (List Rat)) (eq : List (List (List Rat)))
     (bpin bval : List (List Rat)) (beq : List (List (List Rat))) (r i : Nat) : Bool :=
   bpin[r]? == pin[i]? && bval[r]? == val[i]? &&
     (List.zip eq beq).all fun tb => tb.2[r]? == tb.1[i]?
 
 /-- one observation batch against the user's (lifted) tables; `eq` / `beq` are the observed
     parameter tables / batches in the same key order, `keysOk` says the key sets coincide -/
-def holdsObsBatch (b : Nat) (pin val : List (List Rat)) (eq : List (List (List Rat)))
+def c15ObsBatch (b : Nat) (pin val : List (List Rat)) (eq : List (List (List Rat)))
     (bpin bval : List (List Rat)) (beq : List (List (List Rat))) (keysOk : Bool) : Option String :=
   let n := pin.length
   if !keysOk || eq.length != beq.length then some "obs-batch-eq-params-keys-differ-from-the-tables"
@@ -30,14 +30,14 @@ def holdsObsBatch (b : Nat) (pin val : List (List Rat)) (eq : List (List (List R
     some "obs-batch-size"
   else
     c15First <| (List.range b).map fun r =>
-      if (List.range n).any (rowIs pin val eq bpin bval beq r) then none
+      if (List.range n).any (c15RowIs pin val eq bpin bval beq r) then none
       else if (List.range n).any (fun i => bpin[r]? == pin[i]?) then
         some "obs-batch-row-mixes-different-original-rows"
       else some "obs-batch-input-is-not-a-row-of-the-table"
 
 /-- one key of a parameter loader: `user` = the user's table lifted to `(n, 1)` if any, else the
     key's range; `store` the store after construction; `batches` every batch served -/
-def holdsParamKey (n b : Nat) (user : Option (List (List Rat))) (range : Option (Rat × Rat))
+def c15ParamKey (n b : Nat) (user : Option (List (List Rat))) (range : Option (Rat × Rat))
     (store : List (List Rat)) (batches : List (List (List Rat))) : Option String :=
   if store.length != n || !(store.all fun r => r.length == 1) then some "param-store-shape-is-not-(n,1)"
   else
@@ -57,9 +57,42 @@ def holdsParamKey (n b : Nat) (user : Option (List (List Rat))) (range : Option 
         else some "param-batch-row-not-from-this-key's-store"
 
 /-- one entry of a multi-network batch -/
-def holdsMultiEntry (hasData : Bool) (entryEmpty : Bool) (inner : Option String) : Option String :=
+def c15MultiEntry (hasData : Bool) (entryEmpty : Bool) (inner : Option String) : Option String :=
   if hasData && entryEmpty then some "multi-empty-entry-for-a-network-with-observations"
   else if !hasData && !entryEmpty then some "multi-nonempty-entry-for-a-network-without-observations"
   else if hasData then inner else none
+
+/-! ### whole traces -/
+
+/-- a batch as returned: `(pinn_in, val, eq_params)` with the observed parameters by name -/
+abbrev Batch15 := List (List Rat) × List (List Rat) × List (String × List (List Rat))
+
+/-- C15 on an observation loader: the user's tables (lifted to 2-D, observed parameters by name,
+    names sorted) and every batch returned along the history. -/
+def holdsC15Obs (b : Nat) (pin val : List (List Rat)) (eq : List (String × List (List Rat)))
+    (batches : List Batch15) : Option String :=
+  c15First <| batches.map fun bt =>
+    c15ObsBatch b pin val (eq.map (·.2)) bt.1 bt.2.1 (bt.2.2.map (·.2)) (eq.map (·.1) == bt.2.2.map (·.1))
+
+/-- one key of a parameter loader as observed: user table (lifted) / range, store, batches -/
+abbrev Key15 := Option (List (List Rat)) × Option (Rat × Rat) × List (List Rat) × List (List (List Rat))
+
+/-- C15 on a parameter loader: every key on its own. -/
+def holdsC15Param (n b : Nat) (keys : List Key15) : Option String :=
+  c15First <| keys.map fun k => c15ParamKey n b k.1 k.2.1 k.2.2.1 k.2.2.2
+
+/-- C15 on a multi-network loader: `nets` = per network its tables if it has observations;
+    `steps` = per `get_batch`, per network: (entry is empty, the entry's batch if not). -/
+def holdsC15Multi (b : Nat)
+    (nets : List (String × Option (List (List Rat) × List (List Rat) × List (String × List (List Rat)))))
+    (steps : List (List (String × Bool × Option Batch15))) : Option String :=
+  c15First <| steps.map fun ents =>
+    if ents.map (·.1) != nets.map (·.1) then some "multi-batch-keys-differ-from-the-networks"
+    else c15First <| (List.zip nets ents).map fun ne =>
+      let inner : Option String :=
+        match ne.1.2, ne.2.2.2 with
+        | some t, some bt => holdsC15Obs b t.1 t.2.1 t.2.2 [bt]
+        | _, _ => none
+      c15MultiEntry ne.1.2.isSome ne.2.2.1 inner
 
 end Jinns.Holds
